@@ -57,13 +57,13 @@ PROPS = {
         partial=[]),
     "C02": rt(700, 12000, ["serve-with-params", "serve-user"],
         "add-only tables of 1-14 routes in random registration orders incl. >=5 literal siblings; probes as C01, ASCII; the table-only resolver `resolve` (Spec/Resolve.v) is evaluated on every probe",
-        props=["TreeMatch", "C02order", "C02dfs", "Consts"],
+        props=["TreeMatch", "C02order", "C02dfs", "C03lit", "Consts"],
         level_text="C02_shortest_capture: for every matcher function, suffix and path, a parameter takes the SHORTEST accepted value that is followed by its literal suffix (no widening) - all inputs. C02_order_reachable / C02_literal_children_first / C02_sort_node_sorted: in every reachable tree the children of every node are ordered literal < interceptor < regexp < named and every index entry points at a literal child, so depth-first search tries the kinds in the documented priority (proved preserved through registration incl. splits, removal, clean, use). C02_first_successful_child(_precise) / C02_404_iff_all_fail: the answer comes from the FIRST child in search order (indexed literal, then the non-indexed children in kind order) whose subtree matches, every earlier child having failed - falling back, never widening (C02_no_widening, C02_outcome_independent_of_params); C02_kind_priority_no_index, C02_literal_indexed_wins, C02_sort_node_idx_complete. The full refinement 'match on the tree built from a table = outcomes(table)' is stated as the executable resolver Spec/Resolve.v and decided on the implementation on every probe.",
         level_note="partial: kind-priority / first-byte-index / radix-split refinement to the table resolver (Repr invariant) is not proved; it is checked by evaluating the extracted resolver against implementation and model.",
         partial=["C02_priority (refinement tree -> outcomes) not proved"]),
     "C03": rt(350, 6000, ["remove", "clean"],
         "histories of 1-14 mutations (40% Remove/Clean, facades, >=5 literal siblings) with state dump, Routes() and one simple witness per pool pattern after every step",
-        props=["C03", "C03find"],
+        props=["C03", "C03find", "C03lit"],
         level_text="At tree level, every reachable tree: C03_find_sound / C03_find_complete (the lookup used by Remove, URL and the duplicate check finds a node spelling the pattern iff one exists), C03_add_registers (an accepted Handle leaves a node with that pattern carrying the methods, OPTIONS and the 405 handler), C03_remove_effect / C03_remove_others_kept (Remove changes exactly the one node it looked up; every other node keeps pattern, handlers and method set), C03_remove_all_clears_partial, C03_absent_not_found; C03_pattern_once_refuted: with literal text containing unbalanced braces two nodes can spell the same pattern (outside the well-formed quantifier). On the abstract route table (C03_remove_frame, C03_remove_all, C03_clean_exact, C03_handle_frame, C03_use_keeps_routes): removal touches exactly the named pattern, Clean(prefix) exactly the patterns with that prefix. Routes()/dispatch of the implementation are compared with this table after every step, with the documented resolver deciding the winner on simple witnesses, and earlier dispatches are re-checked after removals (frame).",
         level_note="partial: the refinement tree-state -> table (abs commutes with add/remove/clean) is checked by the dump correspondence and the oracles on every step, not proved.",
         partial=["C03_refinement (abs_tree (step t op) = table_step (abs_tree t) op) not proved"]),
